@@ -114,4 +114,18 @@ PROPS = {
         "exhaustive": "thorough: all 21^4 histories over {put k (sizes 0,2,4,5), hoa k, get k, rm k} x 3 keys on a sized cache cap=2 bytes=4",
         "assumptions": ["hashicorp/golang-lru v0.6.0 simplelru and container/list are modelled from their source; handlers run on goroutines: the harness waits for quiescence (bounded) before reading the invocation multiset"],
     },
+    "C08": {
+        "theorems": [],
+        "modules": ["SV.Props.C08"],
+        "runs": [{"component": "persist", "thorough_seeds": 2}],
+        "rule": "random Put/Remove/tick/Close+reopen/RangeKeys histories over 3-7 keys (values nil, empty, short, long) on leveldb.DB, leveldb.SerialDB, memorydb and the sharded persister over each (2,3,5 shards), MaxBatchSize 1..100, real LevelDB directories, timer flushes by real waiting (BatchDelaySeconds=1); Get/Has of every key after every operation; distinct = distinct (operation kind, full read-back) pairs",
+        "assumptions": ["goleveldb contract: Write(batch) applies the batch atomically and in order, Get/Has/NewIterator read the applied writes, Close/Open preserve them", "timer flush is modelled as an explicit tick event; the harness waits BatchDelaySeconds+0.35s for it"],
+    },
+    "C09": {
+        "theorems": [],
+        "modules": ["SV.Props.C09"],
+        "runs": [{"component": "persist", "thorough_seeds": 2}],
+        "rule": "random Put/Remove/tick/Close+reopen/RangeKeys histories over 3-7 keys (values nil, empty, short, long) on leveldb.DB, leveldb.SerialDB, memorydb and the sharded persister over each (2,3,5 shards), MaxBatchSize 1..100, real LevelDB directories, timer flushes by real waiting (BatchDelaySeconds=1); Get/Has of every key after every operation; distinct = distinct (operation kind, full read-back) pairs",
+        "assumptions": ["goleveldb contract: Write(batch) applies the batch atomically and in order, Get/Has/NewIterator read the applied writes, Close/Open preserve them", "timer flush is modelled as an explicit tick event; the harness waits BatchDelaySeconds+0.35s for it"],
+    },
 }
